@@ -232,3 +232,67 @@ CHECKS = {
         design_ref='3-D Q1, 4-C19',
     ),
 }
+
+
+# ---- wave-4 extensions (rules added after the C08/C09/C17/C18/C19/C20 seeding round) -----------------------------
+CHECKS['C08'].update(
+    text='Decides structural clauses of the list table, not multimap behaviour over the 16 option combinations: L1 load returns '
+         'a count incremented per added entry; L2 the sort exchanges only for a strictly positive comparison (stability) and '
+         'exchanges every payload field; L3 save/load use the inverse codec pair under their flags with the same separator; L4 '
+         'every behaviour option sets its own field and every field is read by the operation it governs; L5 direction choices map '
+         'forward to first/next and backward to last/prev, insert-at-top links before first; DL1 the unlink protocol of the doubly '
+         'linked chain (on every path to the count decrement each side is tested, the end pointer is re-assigned where the entry is '
+         'at that end and the neighbour is re-linked where it is not); L6 key equality only through the option-selected matcher '
+         'slots (the stored case-sensitive hash is compared only inside the case-sensitive matcher); L8 the loader trims and splits '
+         'text while it is still encoded; L9 no read of the insert-at-top option on the call paths from the loader to the linker '
+         '(load always appends, so save + load keeps the order); T4/R2 count and payload/size pairing.',
+    technique='static structural / sibling-agreement rules, a path-sensitive unlink-protocol typestate, who-may-read and '
+              'call-graph reachability rules over the AST and CFG of qlisttbl.c')
+CHECKS['C09'].update(
+    text='Decides the end-agreement clause that makes queue/stack/grow FIFO/LIFO/concatenation, and accounting/range clauses of the '
+         'list: E1 through the method table every queue insert variant uses one end and every remove/peek variant the opposite end, '
+         'every stack variant the same end, every grow add appends and the flatteners walk first->next; E2 first/last wrappers are '
+         'the 0/-1 index forms; E3 the byte total changes by exactly the stored size with the count, and the recorded size of a '
+         'linked element is never changed behind it; E4 link-in only after the size-limit and range refusals; E5 the index-to-node '
+         'lookup starts scanning only under the must-facts 0 <= index < num (signedness of each comparison taken from its operand '
+         'types); DL1 unlink protocol of the doubly linked chain; T4/R2 count and payload/size pairing. Sequence behaviour over '
+         'histories and which element the nearest-end walk reaches are not decided.',
+    technique='static call-resolution through method tables with end classification; pairing/dominance rules, signedness-aware '
+              'must-facts and a path-sensitive unlink-protocol typestate on qlist.c')
+CHECKS['C17'].update(
+    text=CHECKS['C17']['text'] + ' CU4 a cell argv[K] of the freshly allocated per-line record of the Apache-style tokenizer is read '
+         'only after K+1 store-and-count steps on every path (exact saturating count, partitioned by the loop flags). BW1 every '
+         'explicit-extent write (memcpy/strncpy/memset/snprintf/indexed store) into a local buffer of known capacity fits: capacity '
+         'minus extent folds to a constant >= 0, or the variable part is bounded by a dominating comparison.',
+    technique='static abstract interpretation (safe-window cursor domain with flag partitioning) over per-function CFGs; '
+              'definite-assignment dataflow; counted-cell typestate; symbolic (polynomial) capacity/extent comparison with must-facts')
+CHECKS['C18'].update(
+    text='Decides agreement of the code with the published algorithms as value graphs, plus the exact-bytes clause - not the '
+         'buffering of MD5Update or the file reader: each hash function is turned, by forward substitution over its AST with helper '
+         'inlining, into hash-consed value graphs that are compared with graphs built from the published algorithm: MurmurHash3 '
+         'x86_32 / x64_128 (block framing, loop body, and tail + finaliser for every length residue), FNV-1 32/64 (offset basis, '
+         'per-byte step, result), the MD5 block transform of RFC 1321 (initial state, all 64 steps with sine-derived constants, '
+         'round functions by truth table), and - in the table form the code has today - the MD5 padding arithmetic (H7: padding '
+         'table, pad length for all 64 buffered-byte counts, bit count encoded first and appended last); no branch depends on a '
+         'data byte and counted scans test the count first; the containers use murmur3_32 / MD5 consistently.',
+    note='MD5Update buffering and the file-range reader of qhashmd5_file are not modelled; a padding routine in another form than '
+         'today\'s gives no H7 instance (not decided, never an alarm); C integer semantics are as the published algorithms assume; no '
+         'hash value is ever computed by the check.',
+    technique='static value-graph construction by forward substitution (value numbering with residue-class constant propagation) '
+              'and graph comparison with the published algorithms; constant folding of the pad-length expression over its 64-value '
+              'domain; taint-free-branch and count-guard rules')
+CHECKS['C19'].update(
+    text='Decides the bounded-write clause for the size-parameterised routines and byte-set / byte-map clauses of trimming and case '
+         'conversion: W1 every byte-steered loop of the trim routines continues exactly for {SP,TAB,CR,LF} (the loop condition is '
+         'evaluated for all 256 byte values; <ctype.h>, strchr and repository helper predicates are modelled); W2 the per-byte '
+         'effect of qstrupper/qstrlower equals the ASCII case map for all byte values; W3 a 256-entry table is indexed only by a '
+         'value provably in 0..255; W4 s[len - k] is reached only under the must-fact len >= k; Q1 for qstrcpy/qstrncpy/qstrgets '
+         'every block copy / indexed store into the destination needs the must-fact len < size established by the clamp, delegation '
+         'passes (dst, size) unchanged to a verified routine, cursor writes sit in a loop bounded by i < size - 1; M1 overlap-safe '
+         'copies in the in-place routines. What replace / tokenizer / line reader compute and the output bound of qstrreplace are '
+         'value computations and are not decided.',
+    technique='static must-fact dataflow (comparison- and assignment-derived bounds), a loop counting rule on the CFG, and exhaustive '
+              'evaluation of byte predicates / byte maps over the 256 byte values')
+CHECKS['C20'].update(
+    text=CHECKS['C20']['text'] + ' B5 (INI parser) the ${...} scan over a value is abandoned only at the end of the text or with a '
+         'restart requested, so an unresolved reference never hides the references to its right.')
